@@ -57,6 +57,7 @@ type Params struct {
 	StopMode   string `json:"stop_mode"` // quiescent | inflight
 	ChaosMs    int    `json:"chaos_ms"`
 	Count      int    `json:"count"` // notifications per producer in the counting phase
+	Flood      bool   `json:"flood"` // in-flight stop with the report queue kept full by unthrottled direct producers
 }
 
 type Result struct {
@@ -187,6 +188,8 @@ func runChild(p Params) (res Result) {
 	var timerExp atomic.Int64
 	var activeProducers atomic.Int64
 	var stopOverlap atomic.Bool
+	var flood atomic.Bool
+	var loopGone atomic.Bool // the server's goroutines have finished
 
 	// ---- SMF behaviour
 	var swg sync.WaitGroup
@@ -303,7 +306,11 @@ func runChild(p Params) (res Result) {
 			time.Sleep(200 * time.Microsecond)
 			return
 		}
-		if !throttle() {
+		if flood.Load() {
+			// producers push as hard as the report queue lets them (direct path only: a blocked
+			// netlink listener is C18's subject, a blocked producer at Stop() is this property's)
+			kind = 2
+		} else if !throttle() {
 			return
 		}
 		switch kind {
@@ -326,7 +333,9 @@ func runChild(p Params) (res Result) {
 				postedUsage.Add(1)
 			}
 		case 2: // direct post, as the periodic server does
-			if stopAll.Load() {
+			// in flood mode the producers do not know about Stop(), like the periodic server and the netlink
+			// listener in production: they keep posting until the server's goroutines are gone
+			if stopAll.Load() && !(flood.Load() && !loopGone.Load()) {
 				return
 			}
 			st.Srv.NotifySessReport(report.SessReport{SEID: seid, Reports: []report.Report{report.USAReport{URRID: 1, USARTrigger: report.UsageReportTrigger{Flags: report.USAR_TRIG_PERIO}}}})
@@ -345,7 +354,7 @@ func runChild(p Params) (res Result) {
 		r := rand.New(rand.NewSource(seed))
 		activeProducers.Add(1)
 		defer activeProducers.Add(-1)
-		for !stopAll.Load() {
+		for !stopAll.Load() || (flood.Load() && !loopGone.Load()) {
 			if quota != nil {
 				if quota.Add(-1) < 0 {
 					return
@@ -389,7 +398,10 @@ func runChild(p Params) (res Result) {
 		go func() { st.WaitGroup().Wait(); close(done) }()
 		select {
 		case <-done:
+			time.Sleep(2 * time.Millisecond) // producers unaware of the stop keep posting for a moment
+			loopGone.Store(true)
 		case <-time.After(10 * time.Second):
+			loopGone.Store(true)
 			state, frame, dump := stack.LoopState()
 			blocked := ""
 			for _, g := range strings.Split(dump, "\n\n") {
@@ -411,6 +423,10 @@ func runChild(p Params) (res Result) {
 	chaos := time.Duration(p.ChaosMs) * time.Millisecond
 	if p.StopMode == "inflight" {
 		time.Sleep(time.Duration(float64(chaos) * (0.3 + 0.7*rng.Float64())))
+		if p.Flood {
+			flood.Store(true)
+			time.Sleep(3 * time.Millisecond)
+		}
 		shutdown(true)
 	} else {
 		time.Sleep(chaos)
@@ -494,7 +510,26 @@ func runChild(p Params) (res Result) {
 	stopAll.Store(true)
 	close(expiryWatch)
 	swg.Wait()
-	pwg.Wait()
+	// every report producer that was inside NotifySessReport when the server stopped must come back
+	pdone := make(chan struct{})
+	go func() { pwg.Wait(); close(pdone) }()
+	select {
+	case <-pdone:
+	case <-time.After(5 * time.Second):
+		n := 0
+		buf := make([]byte, 1<<22)
+		dump := string(buf[:runtime.Stack(buf, true)])
+		for _, g := range strings.Split(dump, "\n\n") {
+			if strings.Contains(g, "pfcp.(*PfcpServer).NotifySessReport") {
+				n++
+			}
+		}
+		fail("stop-hang:internal/pfcp.(*PfcpServer).NotifySessReport", "5 s after the server stopped %d report producer(s) are still blocked inside NotifySessReport", n)
+		// they never return: leave the process without them
+		res.TimerExpiries = timerExp.Load()
+		res.Posted = posted.Load()
+		return
+	}
 	for _, s := range smfs {
 		s.stop.Store(true)
 	}
@@ -709,6 +744,7 @@ func gen(t *rapid.T) Params {
 		StopMode:   rapid.SampledFrom([]string{"quiescent", "inflight"}).Draw(t, "stop"),
 		ChaosMs:    rapid.IntRange(20, 150).Draw(t, "chaos"),
 		Count:      rapid.IntRange(5, 60).Draw(t, "count"),
+		Flood:      rapid.Bool().Draw(t, "flood"),
 	}
 }
 
